@@ -20,6 +20,7 @@ import (
 	"testing"
 
 	"github.com/zerx-lab/wordZero/pkg/document"
+	"github.com/zerx-lab/wordZero/pkg/style"
 	"pgregory.net/rapid"
 
 	"wzverif/internal/canon"
@@ -55,14 +56,57 @@ var editWeights = map[string]int{
 	"props": 1, "title": 1, "author": 1,
 	"rmpara": 1, "rmparaat": 1, "rmelemat": 1,
 	"save": 2, "reopen": 2, "tpldoc": 1,
+	"pstyle": 4, "customstyle": 2,
 }
 
-var cfg = &ops.Config{Classes: gen.Expressible, Weights: editWeights}
+var cfg = &ops.Config{Classes: gen.Expressible, Weights: editWeights, StyleIDs: []string{"Normal", "Heading1", "Heading2", "Title", "Quote", "NoSuchStyle"}}
+
+// style-manager lookups a caller may do on an opened document; executed by this package (the shared
+// interpreter has no such kinds): they read, so they must not change anything in the saved package.
+var lookupKinds = []string{"smexists", "smget", "small", "sminherit", "smquick", "smquickall"}
+
+func isLookup(k string) bool { return strings.HasPrefix(k, "sm") }
+
+func doLookup(d *document.Document, o ops.Op) {
+	id := "Normal"
+	if len(o.S) > 0 {
+		id = o.S[0]
+	}
+	sm := d.GetStyleManager()
+	if sm == nil {
+		return
+	}
+	switch o.K {
+	case "smexists":
+		sm.StyleExists(id)
+	case "smget":
+		sm.GetStyle(id)
+	case "small":
+		sm.GetAllStyles()
+	case "sminherit":
+		sm.GetStyleWithInheritance(id)
+	case "smquick":
+		style.NewQuickStyleAPI(sm).GetStyleInfo(id)
+	case "smquickall":
+		style.NewQuickStyleAPI(sm).GetAllStylesInfo()
+	}
+}
+
+func fmtOfExt(ext string) string {
+	switch strings.ToLower(ext) {
+	case "jpeg", "jpg":
+		return "jpeg"
+	case "gif":
+		return "gif"
+	}
+	return "png"
+}
 
 // op kinds after which the concatenated body text of P must still be a prefix of Q's: they append to the
 // body, act on elements appended earlier, or do not touch the body at all.
 var bodyNeutral = map[string]bool{"header": true, "footer": true, "headerpn": true, "footerpn": true, "fheader": true, "ffooter": true, "difffirst": true,
-	"notecfg": true, "pagesize": true, "orient": true, "margins": true, "custompage": true, "props": true, "title": true, "author": true, "save": true, "reopen": true, "tpldoc": true}
+	"notecfg": true, "pagesize": true, "orient": true, "margins": true, "custompage": true, "props": true, "title": true, "author": true, "save": true, "reopen": true, "tpldoc": true,
+	"customstyle": true, "smexists": true, "smget": true, "small": true, "sminherit": true, "smquick": true, "smquickall": true}
 var bodyRemoving = map[string]bool{"rmparaat": true, "rmelemat": true}
 
 func genCase(t *rapid.T) Case {
@@ -73,6 +117,38 @@ func genCase(t *rapid.T) Case {
 			n := rapid.IntRange(1, 3).Draw(t, "nimgtail")
 			for i := 0; i < n; i++ {
 				c.Ops = append(c.Ops, cfg.OpOf(t, "image"))
+			}
+		}
+	}
+	// style-manager lookups and style use, anywhere in the history (also as the only "edit")
+	if rapid.SampledFrom([]bool{false, false, true}).Draw(t, "lookups") {
+		n := rapid.IntRange(1, 2).Draw(t, "nlookups")
+		for i := 0; i < n; i++ {
+			o := ops.Op{K: rapid.SampledFrom(lookupKinds).Draw(t, "lookup"), S: []string{rapid.SampledFrom(cfg.StyleIDs).Draw(t, "lookupid")}}
+			at := rapid.IntRange(0, len(c.Ops)).Draw(t, "lookupat")
+			c.Ops = append(c.Ops[:at], append([]ops.Op{o}, c.Ops[at:]...)...)
+		}
+	}
+	// the package has image<K> media that the main part does not relate to, numbered above the main part's own:
+	// add pictures (body or cell) of the formats that would be written under exactly those names
+	if next, taken := c.Pkg.LibraryImageSlots(); len(taken) > 0 && rapid.SampledFrom([]bool{true, true, true, false}).Draw(t, "slotimgs") {
+		last := next
+		for k := range taken {
+			if k > last {
+				last = k
+			}
+		}
+		haveTable := false
+		for k := next; k <= last && k < next+4; k++ {
+			im := gen.Img{Fmt: fmtOfExt(taken[k]), W: rapid.IntRange(1, 8).Draw(t, "sw"), H: rapid.IntRange(1, 8).Draw(t, "sh"), Pat: rapid.IntRange(0, 1<<20).Draw(t, "spat"), Name: "new." + taken[k]}
+			if rapid.IntRange(0, 3).Draw(t, "incell") == 0 {
+				if !haveTable {
+					c.Ops = append(c.Ops, ops.Op{K: "table", I: []int{2, 2, 0}})
+					haveTable = true
+				}
+				c.Ops = append(c.Ops, ops.Op{K: "cellimg", I: []int{0, 0, 0}, F: []float64{10}, Img: &im})
+			} else {
+				c.Ops = append(c.Ops, ops.Op{K: "image", Img: &im, I: []int{0, 0, 0, 0}, F: []float64{10, 10}, S: []string{"", "", ""}})
 			}
 		}
 	}
@@ -140,6 +216,8 @@ func regenerated(o ops.Op, hf map[string][]string) []string {
 		return []string{"word/settings.xml"}
 	case "props", "title", "author":
 		return []string{"docProps/core.xml", "docProps/app.xml"}
+	case "customstyle":
+		return []string{"word/styles.xml"} // creating a style legitimately rewrites the styles part
 	}
 	return nil
 }
@@ -265,7 +343,13 @@ func run(c Case) *kit.Result {
 		}
 		replaced := x.Replaced
 		var e error
-		p, st := kit.Try(func() { e = x.Do(op) })
+		p, st := kit.Try(func() {
+			if isLookup(op.K) {
+				doLookup(x.Doc, op)
+			} else {
+				e = x.Do(op)
+			}
+		})
 		if p != nil {
 			res.Fail("C04.N0", "op %d %s panicked: %v [%s]", i, op.K, p, st)
 			res.Nontrivial, res.Shape = true, "panic"
@@ -343,6 +427,15 @@ func run(c Case) *kit.Result {
 	}
 	if imagesAdded > 0 {
 		res.Label("edits:images-added")
+		if c.Pkg.Has(foreign.FMediaOtherHighest) {
+			res.Label("edits:images-added-below-other-parts-media")
+		}
+	}
+	for _, op := range c.Ops {
+		if isLookup(op.K) {
+			res.Label("edits:style-lookup")
+			break
+		}
 	}
 
 	// ---- N1: parts outside the regenerated set are written back byte for byte under the same name
@@ -569,7 +662,7 @@ func lostHint(p foreign.Package, after string) string {
 func TestC04(t *testing.T) {
 	kit.Main(t, kit.Spec[Case]{
 		ID: "C04", Level: "exploration",
-		Rule: "a generated foreign package (independent writer: namespace prefixes, extra parts with own relationship parts, external relationships, id shapes, media names, nested runs, multi-w:t runs, tables, section breaks) x 0 edits (40 %) or 1-8 (thorough 1-14) generated edit calls between Open/OpenFromMemory and Save/ToBytes; " +
+		Rule: "a generated foreign package (independent writer: namespace prefixes, extra parts with own relationship parts, external relationships, id shapes, media names, nested runs, multi-w:t runs, tables, section breaks) x an edit history between Open/OpenFromMemory and Save/ToBytes: none (about 20 %), or 1-8 (thorough 1-14) generated edit calls, optionally read-only style-manager lookups, and - when the package holds image<K> media that the main part does not relate to - pictures of the formats that a counter looking only at the main part would write under those names; " +
 			"non-trivial = package has >= 2 extra parts and at least one of {external relationship, run nested in hyperlink/ins/smartTag/sdt, run with several w:t, media name the library would not choose, relationship ids that are not the dense rId1..N}; " +
 			"distinct = distinct (feature set of the package, sequence of (op kind, outcome), entry points)",
 		Gen: genCase, Run: run, Findings: findings, Fixed: fixedCases,
@@ -580,6 +673,7 @@ func TestC04(t *testing.T) {
 			"a refused Open or a failed Save loses nothing and is counted, not judged",
 		},
 		MustSee: map[string]float64{"pkg:" + foreign.FExtRel: 0.05, "feat:nested-run": 0.05, "pkg:" + foreign.FMultiT: 0.05, "pkg:" + foreign.FMediaOddName: 0.05,
-			"feat:non-dense-ids": 0.05, "edits:some": 0.5, "feat:custom-prefix": 0.1, "edits:images-added": 0.1},
+			"feat:non-dense-ids": 0.05, "edits:some": 0.5, "feat:custom-prefix": 0.1, "edits:images-added": 0.1,
+			"pkg:" + foreign.FMediaOtherHighest: 0.15, "edits:images-added-below-other-parts-media": 0.1, "edits:style-lookup": 0.15, "op:pstyle": 0.02, "op:customstyle": 0.01},
 	})
 }
